@@ -66,7 +66,8 @@ pub trait RollingValidCmp<T: IsNone>: Vec1View<T> {
                             _ => {},
                         }
                     }
-                    let out = if n >= min_periods {
+                    // an all-null window holds no extreme: no offset to report
+                    let out = if n >= min_periods && n > 0 {
                         min_idx
                             .map(|min_idx| (min_idx - start.unwrap_or(0) + 1).f64())
                             .unwrap_or(f64::NAN)
@@ -218,7 +219,8 @@ pub trait RollingValidCmp<T: IsNone>: Vec1View<T> {
                             _ => {},
                         }
                     }
-                    let out = if n >= min_periods {
+                    // an all-null window holds no extreme: no offset to report
+                    let out = if n >= min_periods && n > 0 {
                         max_idx
                             .map(|max_idx| (max_idx - start.unwrap_or(0) + 1).f64())
                             .unwrap_or(f64::NAN)
